@@ -101,6 +101,10 @@ class Violation:
         self.stratum, self.case, self.key, self.msg, self.detail = stratum, case, key, msg, detail
 
 
+# a failing run is cut short once this many violating cases have been seen (never reached on a tree where the property holds)
+VIOL_STOP = int(os.environ.get("HV_VIOL_STOP", "20000"))
+
+
 class Ctx:
     def __init__(self, prop: str, tier: str, level: str, rule: str,
                  assumptions: list[str] | None = None):
@@ -136,6 +140,14 @@ class Ctx:
         global _CUR
         t = time.time()
         size = space.size
+        if self.nviol_total >= VIOL_STOP:
+            # the run has failed many times over already: further strata add nothing and, on a tree that degrades with
+            # every call, can take very long
+            self.caps_hit.append(f"{name}: not explored, {self.nviol_total} violating cases found before (HV_VIOL_STOP={VIOL_STOP})")
+            self.strata.append({"stratum": name, "engine": "E1/E3 exhaustive enumeration", "cases": 0, "space_size": size,
+                                "complete": False, "nontrivial": 0, "distinct_outcomes": 0, "impl_executions": 0,
+                                "violations": 0, "wall_s": 0.0, "bound": note})
+            return self.strata[-1]
         _CUR = (space, fn)
         nproc = 1 if (serial or size < 200) else NPROC
         nchunks = max(1, min(size, nproc * 8))
@@ -167,6 +179,10 @@ class Ctx:
                 if self.over_time():
                     done_all = False
                     self.caps_hit.append(f"{name}: HV_MAX_SECONDS reached after {n}/{size} cases")
+                    break
+                if self.nviol_total + nviol >= VIOL_STOP and n < size:
+                    done_all = False
+                    self.caps_hit.append(f"{name}: stopped after {n}/{size} cases with {nviol} violating cases (HV_VIOL_STOP={VIOL_STOP})")
                     break
         finally:
             if pool is not None:
@@ -243,6 +259,10 @@ class Ctx:
                     complete = depth == max_depth
                     if not complete:
                         self.caps_hit.append(f"{name}: HV_MAX_SECONDS reached after depth {depth}")
+                    break
+                if self.nviol_total + nviol >= VIOL_STOP and depth < max_depth and frontier:
+                    complete = False
+                    self.caps_hit.append(f"{name}: stopped after depth {depth} with {nviol} violating transitions (HV_VIOL_STOP={VIOL_STOP})")
                     break
         finally:
             pool.terminate()
